@@ -127,6 +127,10 @@ def oracle(case):
     pol = case["policy"]
     kind = pol["kind"]
     last1 = last2 = None  # adaptive BB: most recent usable ratios
+    # curvature of the quadratic (real view, symmetric): f(y) <= f(x) + <grad f(x), y-x> + lmax/2 |y-x|^2 for all x, y
+    Qs = np.asarray(case["Q"], dtype=np.float64)
+    eigs = np.linalg.eigvalsh((Qs + Qs.T) / 2.0) if Qs.size else np.zeros(1)
+    lmin, lmax = float(eigs[0]), float(eigs[-1])
     for i, r in enumerate(recs):
         where = {"step": i, "policy": pol, "accel": case["accel"]}
         if r["raised"]:
@@ -150,6 +154,11 @@ def oracle(case):
                 if not _rel(L, want, 8, TOL):
                     return {**where, "why": "BB: L is neither the documented ratio nor the previous value",
                             "L": L, "Lprev": Lprev, "documented_ratio": float(r2), "dx": dx.tolist(), "dg": dg.tolist()}
+                # C16_bb_between: positive definite curvature, dx != 0: no fall-back and lmin <= L <= lmax
+                # (exact-arithmetic statement: skipped once the step is at rounding level of the iterate)
+                if lmin > 0 and xx > 1e-12 * (1.0 + float(r["x"] @ r["x"])) and not (lmin * (1 - 1e-6) <= L <= lmax * (1 + 1e-6)):
+                    return {**where, "why": "BB: L is outside [lambda_min(Q), lambda_max(Q)] for a positive definite quadratic",
+                            "L": L, "lambda_min": lmin, "lambda_max": lmax, "dx": dx.tolist(), "dg": dg.tolist()}
             else:
                 if G.finite_pos(float(r1)):
                     last1 = float(r1)
@@ -173,6 +182,7 @@ def oracle(case):
             if not tests:
                 return {**where, "why": "line search evaluated no candidate", "L": L}
             Lj = start
+            noisy = False  # some rejection is within rounding of the boundary: the exact-arithmetic bounds do not apply
             for j, t in enumerate(tests):
                 if not _same(t["L"], Lj):
                     return {**where, "why": "trial values are not L0*gamma_u^k", "trial": j, "tried": t["L"], "expected": Lj}
@@ -189,11 +199,19 @@ def oracle(case):
                 acc = t["fz"] <= t["fq"]
                 if j < len(tests) - 1 and acc:
                     return {**where, "why": "search continued after an accepted candidate", "trial": j}
+                # C16_linesearch_bounded: every M >= lambda_max(Q) satisfies the acceptance inequality
+                if not acc and not t["fz"] - t["fq"] > 16e-8 * mag:
+                    noisy = True
+                if not acc and t["L"] >= lmax * (1 + 1e-9) and t["fz"] - t["fq"] > 16e-8 * mag:
+                    return {**where, "why": "candidate rejected although L is at least the curvature of f (quadratic upper bound holds)",
+                            "trial": j, "L": t["L"], "lambda_max": lmax, "fz": t["fz"], "fq": t["fq"]}
                 Lj = Lj * pol["gu"]
             lastt = tests[-1]
             accepted = lastt["fz"] <= lastt["fq"]
             if not accepted and len(tests) < pol["maxiter"]:
                 return {**where, "why": "search stopped on a rejected candidate before the budget ran out", "trials": len(tests)}
+            if not noisy and L > max(start, pol["gu"] * lmax) * (1 + 1e-9) and pol["gu"] >= 1.0:
+                return {**where, "why": "returned L exceeds max(L_start, gamma_u * lambda_max(Q))", "L": L, "start": start, "lambda_max": lmax}
             if not _same(L, lastt["L"]):
                 return {**where, "why": "returned L was never tried (not the first accepted / last tried value)",
                         "L": L, "tried": [t["L"] for t in tests], "accepted_last": accepted, "maxiter": pol["maxiter"]}
